@@ -140,3 +140,112 @@ PROPS['C17'] = dict(
     outside='flag/subcommands plumbing and os.Exit in main(); real go/packages errors; the gen/diff counterexamples are not replayed natively (environment is stubbed)',
     assumptions=CLI_ASSUME,
 )
+
+
+# ---------------------------------------------------------------- side B (DESIGN.md §4)
+import corpus as CP
+
+
+def _families(names, seed, tier):
+    specs = []
+    for n in names:
+        if n == 'chains2':
+            specs += list(CP.family_chains(2))
+        elif n == 'chains3':
+            specs += list(CP.family_chains(3))
+        elif n == 'chains4':
+            import random
+            allsp = list(CP.family_chains(4))
+            small = [sp for sp in allsp if len(sp.nodes) <= 4]
+            big = [sp for sp in allsp if len(sp.nodes) > 4]
+            random.Random(seed).shuffle(big)
+            specs += small + big[:1500]
+        elif n == 'deep':
+            specs += CP.family_deep(seed, nmax=5, extra=24 if tier == 'quick' else 200)
+        elif n == 'kinds':
+            specs += CP.family_kinds()
+        elif n == 'naming':
+            specs += CP.family_naming()
+        elif n == 'grouping':
+            specs += CP.family_grouping(seed)
+        elif n == 'values':
+            specs += CP.family_values()
+        elif n == 'reject':
+            specs += CP.family_reject()
+    return specs
+
+
+def sideb(names, label=None):
+    def fn(pid, tier, seed, sp):
+        import sideb as SB
+        specs = _families(names, seed, tier)
+        return SB.run_sideb(pid, specs, props_filter=pid, label=sp['label'])
+    return dict(kind='custom', fn=fn, label=label or 'sideB[%s]' % '+'.join(names), entry='sideB', params={})
+
+
+TV = 'translation_validation'
+SIDEB_ASSUME = ['provider stubs log calls/cleanups and return fresh identities; which error-capable provider fails, with which error identity, and the injector argument identities are solver variables',
+                'the oracle is the spec the corpus generator chose (DAG, kinds, flags), never Wire\'s output',
+                'programs are enumerated from the stated grammar (that enumeration is not the solver\'s); per program the verdict over all provider behaviours is the solver\'s',
+                'go/packages + go/ssa + the Go type checker are trusted']
+SIDEB_TEXT = ('symbolic execution (same engine) of the injectors that the wire binary built from the current tree generates for a regenerated family of programs; '
+              'the spec is the oracle; ')
+
+PROPS['C03'] = dict(
+    level=TV, technique='SSA symbolic execution of generated code + SMT (z3): solver-chosen fault schedules; program family enumerated',
+    quick=[sideb(['chains3', 'deep', 'naming']), sig('H_inject', skeleton=1167)],
+    thorough=[sideb(['chains4', 'deep', 'naming', 'kinds']), sig('H_inject', skeleton=11167)],
+    bounds_text=SIDEB_TEXT + 'every DAG over <=3 function providers x all 4^n (plain / error / cleanup / cleanup+error) flag assignments, deeper chains/stars/random DAGs with 4..5 providers, adversarial naming; two consecutive injector calls with independent fault schedules (error identities 0..2 per provider per call)',
+    outside='injectors with more than 5 calls; programs outside the grammar',
+    assumptions=SIDEB_ASSUME,
+    level_text='translation validation of the emitted injectors: for each program of the family the driver (two calls, cleanup invocation) is executed symbolically and the trace oracle is a set of validity queries over all fault schedules and argument identities; plus the rejection rule of gen.inject on symbolic graphs (side A)',
+)
+PROPS['C04'] = dict(PROPS['C03'], quick=[sideb(['chains3', 'deep'])], thorough=[sideb(['chains4', 'deep', 'kinds'])])
+
+
+PROPS['C01'] = dict(
+    level=TV, technique='SSA symbolic execution + SMT for zeroValue/emission (side A) and for the generated injectors (side B); compile step is the Go type checker',
+    quick=[sideb(['chains2', 'kinds', 'naming', 'values']), sig('H_inject', skeleton=1167)],
+    thorough=[sideb(['chains3', 'deep', 'kinds', 'naming', 'values', 'grouping']), sig('H_inject', skeleton=11167)],
+    bounds_text=SIDEB_TEXT + 'families: all DAGs over <=2 (quick) / <=3 (thorough) function providers x flags, the kinds family (struct providers value/pointer/"*"/prevented fields, values, interface values, bindings to func/arg/value with value and pointer receivers, fields of arg/value/func structs in value and pointer form), adversarial naming, value expressions; each generated package must compile with wire_gen.go in place of the templates and the generated injector must be assignable to a variable of the template\'s exact signature',
+    outside='"compiles" is the Go type checker\'s verdict on the enumerated family (a by-product, not a solver verdict); programs outside the grammar; gofmt',
+    assumptions=SIDEB_ASSUME,
+    level_text='translation validation: every program of the family is generated by the wire built from the tree, type-checked with the generated file standing in for the templates, its signature pinned by an assignment, and its injector executed symbolically under all fault schedules',
+)
+
+PROPS['C02']['quick'] = PROPS['C02']['quick'] + [sideb(['chains3', 'kinds'])]
+PROPS['C02']['thorough'] = PROPS['C02']['thorough'] + [sideb(['chains4', 'deep', 'kinds', 'grouping'])]
+PROPS['C11']['quick'] = PROPS['C11']['quick'] + [sideb(['kinds', 'reject'])]
+PROPS['C11']['thorough'] = PROPS['C11']['thorough'] + [sideb(['kinds', 'reject', 'grouping'])]
+PROPS['C10']['quick'] = PROPS['C10']['quick'] + [sideb(['grouping', 'kinds'])]
+PROPS['C10']['thorough'] = PROPS['C10']['thorough'] + [sideb(['grouping', 'kinds', 'chains3', 'naming'])]
+for _p in ('C05', 'C06', 'C08'):
+    PROPS[_p]['quick'] = PROPS[_p]['quick'] + [sideb(['reject'])]
+    PROPS[_p]['thorough'] = PROPS[_p]['thorough'] + [sideb(['reject'])]
+
+PROPS['C12'] = dict(
+    level=TV, technique='SSA symbolic execution of generated code + SMT; program family enumerated; front-end rejections confirmed end to end',
+    quick=[sideb(['kinds', 'reject']), sig('H_structlit')],
+    thorough=[sideb(['kinds', 'reject', 'naming']), sig('H_structlit')],
+    bounds_text=SIDEB_TEXT + 'struct providers consumed as S and *S, explicit field lists and "*", prevented (wire:"-") and unselected fields must stay zero, fields of argument / value / function-result structs in value and pointer form incl. pointer-to-field aliasing; unknown and case-mismatched field names must be rejected',
+    outside='embedded fields and unexported-field visibility (the compiler\'s); names beyond the family',
+    assumptions=SIDEB_ASSUME,
+)
+
+PROPS['C13'] = dict(
+    level=TV, technique='SSA symbolic execution of generated code + SMT (symbolic operands of the value expressions); expression list enumerated',
+    quick=[sideb(['values', 'kinds'])],
+    thorough=[sideb(['values', 'kinds'])],
+    bounds_text=SIDEB_TEXT + '24 expression forms (identifiers, arithmetic, conversions, composite literals of struct/array/slice/map, address-of, dereference, selectors, indexing, type assertion, parentheses) over symbolic package variables, declared in the injector\'s package and in another package; two calls per injector; 11 forms that must be rejected (function, builtin and method calls, calls through function-typed variables and named function types, receive, nested call, interface-typed value, non-implementing interface value, function literal, unexported identifier of another package)',
+    outside='expression forms beyond the list; evaluation order of Go initialisers',
+    assumptions=SIDEB_ASSUME,
+)
+
+PROPS['C14'] = dict(
+    level=TV, technique='SSA symbolic execution of generated code + SMT; adversarial naming schemes enumerated',
+    quick=[sideb(['naming'])],
+    thorough=[sideb(['naming', 'kinds'])],
+    bounds_text=SIDEB_TEXT + 'adversarial naming: type names whose derived local names are err, cleanup, keywords (select, var, type, func, go, map) and predeclared identifiers (string, error, len, nil, true, int), numeric-suffix neighbours (Err2, Cleanup2), parameters named err / cleanup / v / _ / string / error, package-level variables err, cleanup, v, v2, arg, err2; the generated package must compile and satisfy the C02-C04 trace oracles (a captured identifier shows up as a wrong identity)',
+    outside='names outside the pool; Unicode case folding',
+    assumptions=SIDEB_ASSUME,
+)
